@@ -64,6 +64,32 @@ def parse_case(line):
     return w[0], int(w[1]), ops
 
 
+# double: codes of the special values (harness/h_smallvec.cc, ocaml/smallvec_driver.ml)
+D_SPECIAL = {100001: -0.0, 100002: float("nan"), 100003: float("nan"), 100004: float("inf"),
+             100005: float("-inf"), 100006: 5e-324, 100007: -5e-324, 100008: 2.225073858507201e-308}
+D_POOL = [0] + sorted(D_SPECIAL)
+
+
+def elem(T, v):
+    return D_SPECIAL.get(v, float(v)) if T == "d" else v
+
+
+def vec_eq(T, a, b):
+    """std::vector operator==: same size and element operator== pointwise (NaN != NaN, +0.0 == -0.0)"""
+    return len(a) == len(b) and all(elem(T, x) == elem(T, y) for x, y in zip(a, b))
+
+
+def vec_lt(T, a, b):
+    """std::lexicographical_compare with the element operator<"""
+    for x, y in zip(a, b):
+        x, y = elem(T, x), elem(T, y)
+        if x < y:
+            return True
+        if y < x:
+            return False
+    return len(a) < len(b)
+
+
 def moved(T, v):
     return v if T in "id" else (0 if T == "s" else -1)
 
@@ -156,9 +182,11 @@ def judge(T, S, ops, out):
             return k, "%s:returned-iterator" % name, "step %d %s returns index %s, std::vector returns %s" % (
                 k, show_op(o), f[0], ret)
         a, b = st["a"], st["b"]
-        cmpw = "%d%d%d" % (a == b, a < b, b < a)
+        eq, lt, gt = vec_eq(T, a, b), vec_lt(T, a, b), vec_lt(T, b, a)
+        cmpw = "%d%d%d%d%d%d" % (eq, not eq, lt, not gt, gt, not lt)
         if f[3] != cmpw:
-            return k, "%s:comparison" % name, "step %d: ==,<,> give %s, lists give %s" % (k, f[3], cmpw)
+            return k, "comparison", "step %d %s: a = %s, b = %s: == != < <= > >= give %s, std::vector gives %s" % (
+                k, show_op(o), a, b, f[3], cmpw)
         if f[5] != "-":
             return k, "%s:lifetime-%s" % (name, f[5]), "step %d %s: lifetime error(s) %s (D construct over live, " \
                 "X destroy dead, A assign to raw, R read dead)" % (k, show_op(o), f[5])
@@ -187,6 +215,10 @@ class Gen:
 
     def val(self):
         self.nv += 1
+        if self.T == "d" and self.r.random() < 0.3:
+            return self.r.choice(D_POOL)
+        if self.r.random() < 0.3:
+            return self.r.randint(1, 3)       # repeated values: == and < have something to decide
         return self.r.randint(1, 999)
 
     def vals(self, n):
@@ -283,6 +315,31 @@ def directed(rng):
                             seconds.append([("I", "a", pos, list(range(201, 201 + k)))])
                     for sec in seconds:
                         cases.append((T, S, prep + sec))
+    return cases
+
+
+def compare_cases(rng):
+    """pairs of vectors of equal length that differ in one position only (or not
+    at all), built from the special doubles / repeated values, inline and heap;
+    every record carries == != < <= > >= of the pair"""
+    cases = []
+    for S in (1, 2, 3, 5, 8):
+        for n in sorted({1, S, S + 1}):
+            if n > MAXLIST:
+                continue
+            for T in TYPES:
+                pool = D_POOL + [1, 2] if T == "d" else [1, 2, 3]
+                for p in sorted({0, n // 2, n - 1}):
+                    for x in pool:
+                        for y in pool:
+                            a = [1] * n
+                            b = [1] * n
+                            a[p], b[p] = x, y
+                            ops = [("L", "a", a), ("L", "b", b)]
+                            if x == y:
+                                # the same values: a copy, a moved copy, an assigned copy
+                                ops += [("C", "b"), ("Z", "b", 2 * S + 2), ("A", "a"), ("P", "b", y), ("P", "a", x)]
+                            cases.append((T, S, ops))
     return cases
 
 
@@ -455,12 +512,16 @@ def run(ck):
         cases = [parse_case(l) for l in lines]
     else:
         cases = directed(ck.rng)
+        cmp_cases = compare_cases(ck.rng)
         if not ck.thorough:
-            # quick: a seeded third of the directed product, then random scripts
+            # quick: a seeded part of the directed products, then random scripts
             ck.rng.shuffle(cases)
             cases = cases[:2600]
+            ck.rng.shuffle(cmp_cases)
+            cases += cmp_cases[:1500]
             cases += random_cases(ck.rng, 2600, 10)
         else:
+            cases += cmp_cases
             cases += random_cases(ck.rng, 60000, 24)
     lines = [show_case(T, S, ops) for T, S, ops in cases]
     if not os.path.exists(harness):      # the shared build cache may have been collected meanwhile
